@@ -10,7 +10,10 @@ EXPLANATION = (
     "still unresolved element in process_tags is reported as the known defect it is; (3) a failed attempt leaves no state "
     "behind that a retry could observe: depth counter and variable scope are restored on error exits (shared with C17/C15); "
     "(4) the retry loop terminates with an error when no element makes progress and output is re-ordered by document index "
-    "(shared with C01/C06). Undecided: coordinate invariance under the n! sibling orders (a statement about the fix-point's values)."
+    "(shared with C01/C06); (5) errors are what defers an unresolved element, so the places where a Result<_, SvgdxError> is not "
+    "propagated are frozen in a reviewed table (a new swallow site - `.ok()`, `unwrap_or`, `filter_map`, an unread Err arm - "
+    "is reported), and a missing bounding box is never turned into a default number (no defaulting combinator on "
+    "Option<BoundingBox>). Undecided: coordinate invariance under the n! sibling orders (a statement about the fix-point's values)."
 )
 TRUSTED = []
 ASSUMPTIONS = ["errors raised while an element cannot be resolved make process_tags retry it later"]
@@ -29,6 +32,8 @@ def run(prog, chk):
     C15.scope_pairing(prog, chk, "A5.scope")
     retry_terminates(prog, chk)
     C06.output_order(prog, chk)
+    error_swallow(prog, chk)
+    missing_bbox_default(prog, chk)
 
 
 def _err_blocks(body):
@@ -203,3 +208,64 @@ def retry_terminates(prog, chk):
             continue
         ok, detail = C01_loops.w_len_exit(prog, pt, h, blocks, {}, {})
         chk.ob(ok, "A4.retry-terminates", "process_tags", pt.where(h), detail, "the retry loop of process_tags: " + detail)
+
+
+def error_swallow(prog, chk):
+    """the set of places where an SvgdxError result is not propagated equals the reviewed baseline"""
+    import collections
+    import json
+    import os
+    from sa import errfate
+    from props.C01 import strip_closures
+
+    tp = os.path.join(os.path.dirname(os.path.dirname(os.path.abspath(__file__))), "tables", "error_swallow.json")
+    with open(tp) as fh:
+        table = json.load(fh)["entries"]
+    allow = {(e["function"], e["callee"], e["fate"]): dict(e, used=0) for e in table}
+    n = 0
+    for b in prog.bodies.values():
+        if b.unit != "svgdx-lib":
+            continue
+        for st in errfate.result_fates(prog, b):
+            if "SvgdxError" not in (st.dty or ""):
+                continue
+            n += 1
+            f = st.fate.replace("transformed-", "")
+            if not f.startswith("dropped"):
+                continue
+            k = (strip_closures(b.path), st.callee.path.split("::")[-1], f)
+            ent = allow.get(k)
+            key = f"{strip_closures(b.path).replace('svgdx::', '')}:{k[1]}:{f.split(':')[-1]}"
+            if ent is not None and ent["used"] < ent["count"]:
+                ent["used"] += 1
+                chk.ok("A6.error-swallow", key, b.where(st.bb, st.line), f"reviewed: {ent['reason']}", by="table")
+            else:
+                chk.bad(
+                    "A6.error-swallow",
+                    key,
+                    b.where(st.bb, st.line),
+                    f"{b.short} discards the error of {st.callee.path} ({f}: {st.detail}); this place is not in the reviewed table "
+                    f"policy/tables/error_swallow.json. Unresolved references are deferred (or rejected) only because such errors surface: "
+                    f"swallowing one resolves the element against partial data instead",
+                )
+    chk.floor("A6.error-swallow", n, 400, "call returning Result<_, SvgdxError> in the library")
+
+
+DEFAULTING = ("map_or", "map_or_else", "unwrap_or", "unwrap_or_else", "unwrap_or_default")
+
+
+def missing_bbox_default(prog, chk):
+    seen = 0
+    for b in prog.bodies.values():
+        if b.unit != "svgdx-lib":
+            continue
+        for (bb, t, c) in b.call_sites(lambda c: c.path.startswith("std::option::Option::<T>::")):
+            if not c.targs or "svgdx::position::BoundingBox" != c.targs[0]:
+                continue
+            seen += 1
+            last = c.path.split("::")[-1]
+            if last in DEFAULTING:
+                chk.bad("A6.missing-bbox-default", f"{b.short}:{last}", b.where(bb, t.get("line")), f"{b.short} turns a missing bounding box into a default value with Option::{last}: a reference to an element without (or not yet with) a box is resolved silently instead of failing / being deferred")
+    # positive control: the matcher sees the Option<BoundingBox> combinators that exist today (ok_or_else, is_some, map)
+    chk.floor("A6.missing-bbox-default", seen, 15, "combinator applied to an Option<BoundingBox>")
+    chk.ok("A6.missing-bbox-default", "scan", "-", f"{seen} combinators on Option<BoundingBox> scanned, none of them defaulting ({', '.join(DEFAULTING)})")
